@@ -345,7 +345,7 @@ def macros(ctx, report, rule="C16.MACRO"):
                   "macro expands to %s" % (chain,), site=b.loc(), config="probe")
 
 
-def run(ctx, report):
+def _run_rules(ctx, report):
     for config in ctx.configs:
         if not ctx.parallel(config):
             report.note("config %s: par_seq module is not compiled without the `parallel` feature" % config)
@@ -361,3 +361,10 @@ def run(ctx, report):
         report.guard("C16.CHECK", check, ctx, report, facts, config)
         report.guard("C16.CHECK", PL.intersect_body, ctx, report, "C16.CHECK", facts, config)
     report.guard("C16.MACRO", macros, ctx, report)
+
+
+def run(ctx, report):
+    _run_rules(ctx, report)
+    from .. import shared as _S
+    for config in ctx.configs:
+        report.guard("C16.ENCAPSULATED", _S.encapsulated, ctx, report, "C16.ENCAPSULATED", ctx.facts(config), config, "C16")
